@@ -93,8 +93,10 @@ extern "C" void c03_tangent()
   vf_assume((tp.k0 >= 0.99) & (tp.k0 <= 1));
   tp.x0 = vf_f64("x0");
   tp.y0 = vf_f64("y0");
-  LambertConverter::ProjectionParameters pp = LambertConverter::computeProjectionParameters(tp, el);
-  LambertConverter conv(pp, e);
+  // the public constructor (it computes the projection constants and forwards the eccentricity)
+  LambertConverter conv(tp, el);
+  LambertConverter::ProjectionParameters pp;
+  pp.n = conv.n_; pp.c = conv.c_; pp.xs = conv.xs_; pp.ys = conv.ys_; pp.longitude0 = conv.longitude0_;
   WGS84Coordinates w;
   w.latitude = tp.latitude0;
   w.longitude = tp.longitude0;
@@ -121,8 +123,9 @@ extern "C" void c03_secant()
   sp.longitude0 = vf_f64("lon0");
   sp.x0 = vf_f64("x0");
   sp.y0 = vf_f64("y0");
-  LambertConverter::ProjectionParameters pp = LambertConverter::computeProjectionParameters(sp, el);
-  LambertConverter conv(pp, e);
+  LambertConverter conv(sp, el);
+  LambertConverter::ProjectionParameters pp;
+  pp.n = conv.n_; pp.c = conv.c_; pp.xs = conv.xs_; pp.ys = conv.ys_; pp.longitude0 = conv.longitude0_;
   WGS84Coordinates w;
   w.latitude = sp.latitude0;
   w.longitude = sp.longitude0;
